@@ -33,6 +33,8 @@ CLAIMED = {
          "Exploration (found F24). The C side is judged by C01-C15; this check only demands equality."),
  'C09': ("metamorphic testing (lookahead level and debug level must not change the outcome tuple) + hook H2: every goto-cache hit is recomputed and compared with the cached set", "6.C09",
          "Exploration on random grammars with short inputs (all 6 lookahead values x 9 debug levels) and inputs of up to 150/400 tokens made of repeated fragments (found F10, F28). The ANSI C grammar is covered by the thorough tier only if the tokenised fixture could be built."),
+ 'C17': ("fault injection with exhaustive enumeration of the failing allocation request per scenario (library malloc/calloc/realloc redirected by objcopy to failing wrappers), each k in a fresh child under ASan/UBSan with poisoned fresh memory", "6.C17",
+         "Fault enumeration: every k in 1..K for generated scenarios (create / define by callbacks or text / one or two parses, three tree-allocator modes). Found F23, F36, F37, F38. One failure per run, as the property states."),
  'C08': ("reference minimum over all simple recoveries computed on reference Earley sets", "6.C08", "Exploration; inequality only, as the property states; meaningful together with C07's accounting clause."),
 }
 m={
